@@ -21,7 +21,8 @@
 (*   specialised node kinds) want was read off the text by the harness.    *)
 (* Laws: identity (every reference is the object of definition !N),        *)
 (*   ref-target, placement (inline vs numbered, inline nodes carry ID -1), *)
-(*   def-order (MetadataDefs sorted by ID), distinct, named-merge,         *)
+(*   def-order (MetadataDefs sorted by ID), distinct, kind (node type),    *)
+(*   named-merge,                                                          *)
 (*   printed-ids (explicit IDs kept by the printer), printed-refs (every   *)
 (*   printed reference is the target's ID).                                *)
 (*                                                                         *)
@@ -50,6 +51,7 @@ IRBad(r) == LET row == IR[r] s == row.ids g == row.got IN
 
 DefIds(w)      == [x \in 1..Len(w.defs) |-> w.defs[x].id]
 DefDistinct(w) == [x \in 1..Len(w.defs) |-> w.defs[x].distinct]
+DefKind(w)     == [x \in 1..Len(w.defs) |-> IF "kind" \in DOMAIN w.defs[x] THEN w.defs[x].kind ELSE "Tuple"]
 NamedNames(w)  == [x \in 1..Len(w.named) |-> w.named[x].name]
 Everything(w)  == G!AllOps(w) \o G!NamedOps(w) \o <<G!SiteOps(w.sites)>>
 
@@ -62,6 +64,7 @@ ParseBad(r) == LET row == Parse[r] w == row.want o == row.obs IN
         = [x \in 1..Len(Everything(w)) |-> G!OpsKinds(Everything(w)[x])], "parse", "placement", r)
   + Chk(DefIds(o) = DefIds(w), "parse", "def-order", r)
   + Chk(DefDistinct(o) = DefDistinct(w), "parse", "distinct", r)
+  + Chk(DefKind(o) = DefKind(w), "parse", "kind", r)
   + Chk(NamedNames(o) = NamedNames(w)
         /\ [x \in 1..Len(o.named) |-> G!OpsIds(o.named[x].nodes)]
          = [x \in 1..Len(w.named) |-> G!OpsIds(w.named[x].nodes)], "parse", "named-merge", r)
